@@ -46,12 +46,12 @@ type Type struct {
 	Methods string
 }
 
-func B(s string) *Type              { return &Type{K: KBasic, Basic: s} }
-func P(t *Type) *Type               { return &Type{K: KPtr, Elem: t} }
-func Sl(t *Type) *Type              { return &Type{K: KSlice, Elem: t} }
-func Ar(n int, t *Type) *Type       { return &Type{K: KArray, N: n, Elem: t} }
-func M(k, v *Type) *Type            { return &Type{K: KMap, Key: k, Elem: v} }
-func Ref(n *Type) *Type             { return &Type{K: KRef, ID: n.ID, Name: n.Name, Ext: n.Ext} }
+func B(s string) *Type        { return &Type{K: KBasic, Basic: s} }
+func P(t *Type) *Type         { return &Type{K: KPtr, Elem: t} }
+func Sl(t *Type) *Type        { return &Type{K: KSlice, Elem: t} }
+func Ar(n int, t *Type) *Type { return &Type{K: KArray, N: n, Elem: t} }
+func M(k, v *Type) *Type      { return &Type{K: KMap, Key: k, Elem: v} }
+func Ref(n *Type) *Type       { return &Type{K: KRef, ID: n.ID, Name: n.Name, Ext: n.Ext} }
 func Named(id int, name string, ext int, u *Type) *Type {
 	return &Type{K: KNamed, ID: id, Name: name, Ext: ext, Elem: u}
 }
@@ -256,12 +256,12 @@ func (t *Type) Depth() int {
 // ---------- the catalogue of declarations ----------
 
 type Catalogue struct {
-	NInt, NStr, NBool, NF64, NU8, NC128 *Type
+	NInt, NStr, NBool, NF64, NU8, NC128        *Type
 	S0, SP, Rec, MA, SE, NSl, NMap, NArr, NPtr *Type
-	E1, E2, E3                                  *Type
-	ME, MP                                      *Type // named structs with user Equal/Compare methods (Go/Methods.v)
-	WithMethods                                 bool
-	All                                         []*Type
+	E1, E2, E3, E4                             *Type
+	ME, MP                                     *Type // named structs with user Equal/Compare methods (Go/Methods.v)
+	WithMethods                                bool
+	All                                        []*Type
 }
 
 func NewCatalogue() *Catalogue {
@@ -290,6 +290,7 @@ func NewCatalogue() *Catalogue {
 	c.E1 = Named(30, "E1", 1, StP([]bool{false, true, false, true}, B("int"), B("string"), P(B("int")), Sl(B("int"))))
 	c.E2 = Named(31, "E2", 2, StP([]bool{false, true}, B("string"), B("float64")))
 	c.E3 = Named(32, "E3", 1, St(B("int"), B("bool")))
+	c.E4 = Named(33, "E4", 2, StP([]bool{true, true}, B("int"), B("string"))) // imported, every field unexported
 	// ids 100..199: value receiver/parameter; 200..299: pointer receiver/parameter (Go/Methods.v);
 	// the methods look at the first field only
 	c.ME = Named(100, "ME", 0, St(B("int"), B("string")))
@@ -299,7 +300,7 @@ func NewCatalogue() *Catalogue {
 	c.MP.Methods = "func (a *MP) Equal(b *MP) bool {\n\tif a == nil || b == nil {\n\t\treturn a == nil && b == nil\n\t}\n\treturn a.F0 == b.F0\n}\n\n" +
 		"func (a *MP) Compare(b *MP) int {\n\tif a == nil {\n\t\tif b == nil {\n\t\t\treturn 0\n\t\t}\n\t\treturn -1\n\t}\n\tif b == nil {\n\t\treturn 1\n\t}\n" +
 		"\tif a.F0 < b.F0 {\n\t\treturn -1\n\t}\n\tif a.F0 > b.F0 {\n\t\treturn 1\n\t}\n\treturn 0\n}\n\n"
-	c.All = []*Type{c.NInt, c.NStr, c.NBool, c.NF64, c.NU8, c.NC128, c.S0, c.SP, c.Rec, c.MA, c.SE, c.NSl, c.NMap, c.NArr, c.NPtr, c.E1, c.E2, c.E3}
+	c.All = []*Type{c.NInt, c.NStr, c.NBool, c.NF64, c.NU8, c.NC128, c.S0, c.SP, c.Rec, c.MA, c.SE, c.NSl, c.NMap, c.NArr, c.NPtr, c.E1, c.E2, c.E3, c.E4}
 	return c
 }
 
@@ -315,13 +316,25 @@ func (c *Catalogue) Leaves() []*Type {
 func (c *Catalogue) leaves() []*Type {
 	return []*Type{B("bool"), B("int"), B("int8"), B("uint8"), B("int32"), B("uint64"), B("float32"), B("float64"),
 		B("complex64"), B("complex128"), B("string"),
-		c.NInt, c.NStr, c.NBool, c.NF64, c.NU8, c.S0, c.SP, c.Rec, c.MA, c.SE, c.NSl, c.NMap, c.NArr, c.NPtr, c.E1, c.E2, c.E3}
+		c.NInt, c.NStr, c.NBool, c.NF64, c.NU8, c.S0, c.SP, c.Rec, c.MA, c.SE, c.NSl, c.NMap, c.NArr, c.NPtr, c.E1, c.E2, c.E3, c.E4}
 }
 
 // KeyLeaves: value (comparable, pointer-free) types usable as map keys.
 func (c *Catalogue) KeyLeaves() []*Type {
 	return []*Type{B("bool"), B("int"), B("uint8"), B("float64"), B("string"), B("complex128"), c.NInt, c.NStr, c.NBool, c.S0, c.NArr, c.E3,
 		Ar(2, B("int")), St(B("int"), B("string"))}
+}
+
+// Special: depth-2/3 shapes that take paths of their own in the generators (an array in a map value is
+// not addressable; named arrays; pointer to pointer; nested slices/maps) — part of every tier.
+func (c *Catalogue) Special() []*Type {
+	nrow := Named(20, "NRow", 0, Ar(2, Sl(B("int"))))
+	return []*Type{
+		M(B("string"), Ar(2, Sl(B("int")))), M(B("int"), Ar(2, P(B("int")))), M(B("string"), Ar(2, M(B("string"), B("int")))),
+		M(B("string"), nrow), nrow, Sl(nrow), M(B("string"), Ar(2, B("int"))),
+		Sl(Ar(2, P(c.S0))), P(P(c.S0)), M(B("string"), Sl(Sl(B("int")))), Sl(M(B("string"), Sl(B("int")))),
+		M(B("string"), St(Sl(B("int")), B("int"))), Sl(St(Sl(B("int")), P(B("int")))),
+	}
 }
 
 // Over applies every constructor to the given element types.
